@@ -613,6 +613,7 @@ class Emitter:
         if fi['rec'] is not None and not is_static:
             rc = 'struct ' + self.p.record_cname(fi['rec']['norm'])
             params.append(('const ' if is_const else '') + rc + ' *this')
+            fi['this_decl'] = params[-1]
         for c in inner(n):
             if c['kind'] == 'ParmVarDecl':
                 ct = self.ctype(c['type'])
@@ -651,6 +652,8 @@ class Emitter:
         self.shim_calls = set()
         self.cont_stack = []
         self.cont_used = set()
+        self.loop_depth = 0
+        self.outlined = []
         sig = self.signature(fi)
         n = fi['node']
         body_lines = []
@@ -928,7 +931,7 @@ class Emitter:
     def ghost_exit(self, out):
         for g in self.ghost.get((self.fi['cname'], 'exit'), []):
             out.add(g)
-        if self.fi['cname'] not in self.inline_set:
+        if self.fi['cname'] not in self.inline_set and '__loop' not in self.fi['cname']:
             out.add('bg_ghost_reset_all();')
 
     def value_of(self, e, out, ct):
@@ -1020,7 +1023,114 @@ class Emitter:
         c = self.rv(cond, b)
         return b, c
 
+    # ---- loop outlining (DESIGN §3: one loop level per proof unit) -----------------
+    def maybe_outline(self, n, out):
+        """a loop nested in another loop is emitted as its own function f__loopK"""
+        if self.loop_depth == 0:
+            return False
+        if self._contains(n, 'ReturnStmt'):
+            raise ExtractError('return inside a nested loop (no outlining rule)')
+        k = self.loop_ord + 1
+        name = '%s__loop%d' % (self.fi['cname'], k)
+        # free variables
+        declared, used, uses_this = set(), [], [False]
+
+        def walk(x):
+            kd = x.get('kind')
+            if kd in ('VarDecl', 'ParmVarDecl', 'BindingDecl') and 'id' in x:
+                declared.add(x['id'])
+            if kd == 'CXXThisExpr':
+                uses_this[0] = True
+            if kd == 'DeclRefExpr':
+                rd = x['referencedDecl']
+                if rd['kind'] in ('VarDecl', 'ParmVarDecl') and rd['id'] not in [u['id'] for u in used]:
+                    used.append(rd)
+            for c in x.get('inner', []):
+                walk(c)
+        walk(n)
+        free = [rd for rd in used if rd['id'] not in declared and self._is_local(rd['id'])]
+        params, args = [], []
+        if uses_this[0] or True:
+            if self.fi.get('this_decl'):
+                params.append(self.fi['this_decl'])
+                args.append('this')
+        new_refs = {}
+        for rd in free:
+            ct = self.ctype(rd['type'])
+            is_ref = self.ref_vars.get(rd['id'], ct.is_ref)
+            nm = rd['name']
+            base = CType(ct.base, ct.cname, True, ct.is_const, ct.ptr, ct.info)
+            params.append(base.decl(nm))
+            args.append(nm if is_ref else '&' + nm)
+            new_refs[rd['id']] = True
+        sig = 'void %s(%s)' % (name, ', '.join(params) if params else 'void')
+        # emit the loop in a fresh context
+        saved = (self.fi, self.tmp, self.loop_ord, self.try_stack, self.label_n, self.ref_vars, self.callees,
+                 self.cont_stack, self.cont_used, self.cur_ret, self.loop_depth)
+        parent_callees = self.callees
+        self.fi = dict(self.fi, cname=name)
+        self.tmp, self.loop_ord, self.try_stack, self.label_n = 0, 0, [], 0
+        self.ref_vars = dict(self.ref_vars)
+        self.ref_vars.update(new_refs)
+        self.callees, self.cont_stack, self.cont_used = set(), [], set()
+        self.cur_ret = CType('void', 'void')
+        self.loop_depth = 0
+        body = Buf()
+        for g in self.ghost.get((name, 'entry'), []):
+            body.add(g)
+        self.stmt(n, body)
+        self.ghost_exit(body)
+        sub_callees = self.callees
+        nloops = self.loop_ord
+        (self.fi, self.tmp, self.loop_ord, self.try_stack, self.label_n, self.ref_vars, self.callees,
+         self.cont_stack, self.cont_used, self.cur_ret, self.loop_depth) = saved
+        self.loop_ord = k  # the outlined loop consumes one ordinal of the parent
+        self.outlined.append({'cname': name, 'sig': sig, 'body': body.text(1), 'callees': sorted(sub_callees),
+                              'loops': nloops, 'parent': self.fi['cname']})
+        self.callees.add(name)
+        # no cache reset around an outlined loop: the scratch cell is part of the state its
+        # contract describes (an unobserved row keeps its identity across the call)
+        out.add('%s(%s);' % (name, ', '.join(args)))
+        self.exc_check(out)
+        return True
+
     def st_WhileStmt(self, n, out):
+        if self.maybe_outline(n, out):
+            return
+        self.loop_depth += 1
+        try:
+            self._st_WhileStmt(n, out)
+        finally:
+            self.loop_depth -= 1
+
+    def st_DoStmt(self, n, out):
+        if self.maybe_outline(n, out):
+            return
+        self.loop_depth += 1
+        try:
+            self._st_DoStmt(n, out)
+        finally:
+            self.loop_depth -= 1
+
+    def st_ForStmt(self, n, out):
+        if self.maybe_outline(n, out):
+            return
+        self.loop_depth += 1
+        try:
+            self._st_ForStmt(n, out)
+        finally:
+            self.loop_depth -= 1
+
+    def st_CXXForRangeStmt(self, n, out):
+        if self.maybe_outline(n, out):
+            return
+        self.loop_depth += 1
+        try:
+            self._st_CXXForRangeStmt(n, out)
+        finally:
+            self.loop_depth -= 1
+
+    def _st_WhileStmt(self, n, out):
         parts = inner(n)
         cond, body = parts[0], parts[1]
         pre, c = self.cond_with_prelude(cond)
@@ -1046,7 +1156,7 @@ class Emitter:
             return True
         return any(self._contains(c, kind) for c in inner(n))
 
-    def st_DoStmt(self, n, out):
+    def _st_DoStmt(self, n, out):
         parts = inner(n)
         body, cond = parts[0], parts[1]
         pre, c = self.cond_with_prelude(cond)
@@ -1065,7 +1175,7 @@ class Emitter:
         out.ind -= 1
         out.add('}')
 
-    def st_ForStmt(self, n, out):
+    def _st_ForStmt(self, n, out):
         raw = n.get('inner', [])
         # clang: [init, condvar, cond, inc, body]; absent parts are {} placeholders
         parts = [c for c in raw]
@@ -1114,7 +1224,7 @@ class Emitter:
         out.ind -= 1
         out.add('}')
 
-    def st_CXXForRangeStmt(self, n, out):
+    def _st_CXXForRangeStmt(self, n, out):
         raw = n.get('inner', [])
         # [init?, range decl, begin decl, end decl, cond, inc, loopvar decl, body]
         if len(raw) != 8:
